@@ -18,14 +18,19 @@ def build(rng, L, hows):
     # edge-triggered conditions at action level: they must see every frame, also the idle ones
     for j, c in enumerate(EDGE):
         acts.append(action(ids, aid(j % 4, 3, False, True), [bind(ids, key(0), [PROBE], [])], [], [c]))
+    # one consuming action on a key chord (Ctrl+key 1), level-triggered: while the chord is held and nothing changes,
+    # nothing may happen to it (what the reader remembers about consumed modifiers must not leak into the next frame).
+    # It is the only binding that needs a modifier and nobody else binds key 1, so consumption hides nothing here.
+    acts.append(action(ids, aid(3, 3, True, False), [bind(ids, key(1, CONTROL), [PROBE], [])]))
     cfg = {(0, 0): spec(acts)}
     steps = [sop(spawn(0, [0])), frame(raw())]
     cur = set()
     for i in range(L):
         if rng.random() < 0.5:
-            for n, _ in INPUTS:
+            for n in [n for n, _ in INPUTS] + ['chordkey', 'ctrl']:
                 if rng.random() < .5: cur ^= {n}
-        rw = raw(keys=[0] if 'key' in cur else [], mbuttons=[0] if 'mbutton' in cur else [],
+        rw = raw(keys=([0] if 'key' in cur else []) + ([1] if 'chordkey' in cur else []) + ([modkey(1)] if 'ctrl' in cur else []),
+                 mbuttons=[0] if 'mbutton' in cur else [],
                  motion=(F(1), F(1, 2)) if 'motion' in cur else (F(0), F(0)), wheel=(F(0), F(1)) if 'wheel' in cur else (F(0), F(0)))
         # sub-frame taps (pressed and released by window events before the frame) on inputs that are not held: they never
         # show in ButtonInput::pressed and must not be reflected at all
@@ -45,7 +50,7 @@ def nontrivial(case, out):
 
 STAGES = [dict(name='schedule', mode='app', coq='Check.C09c', cases=cases, nontrivial=nontrivial, shard=20,
                exhaustive={'thorough': False, 'quick': False},
-               rule='one context with 15 actions: {key, mouse button, mouse motion, wheel} x {no condition, Press, Hold} and a key with action-level JustPress / Release / Tap; sub-frame taps (press + release events within one frame) on inputs that are not held; raw input injected as window events before the frame, by resource mutation '
+               rule='one context with 16 actions: {key, mouse button, mouse motion, wheel} x {no condition, Press, Hold} and a key with action-level JustPress / Release / Tap, plus a consuming action on a Ctrl+key chord held over several frames; sub-frame taps (press + release events within one frame) on inputs that are not held; raw input injected as window events before the frame, by resource mutation '
                     'between frames, or from a system in First (fixed and mixed modes); harness systems: a marker before the crate\'s set, a marker + snapshot probe ordered after the set in PreUpdate, a snapshot '
                     'probe in Update; sticky random scripts of 6-20 frames. non-trivial = an episode starts; distinct = distinct scenario text')]
 CLAUSES = {1: 'data polled by a PreUpdate system ordered after the crate\'s set differs from the data polled in Update', 2: 'data polled in Update differs from the data at the end of the frame',
